@@ -489,7 +489,10 @@ theorem abs_init (fixed : Bool) (n c : Nat) (f : Nat → Val) : (St.init fixed n
   · rfl
   · funext i
     simp only [St.abs, St.init, St.slot, Sp.init]
-    by_cases hi : i < n <;> simp [hi]
+    by_cases hi : i < n
+    · have : i < max n c := by omega
+      simp [hi, this]
+    · simp [hi]
   · simp [St.abs, St.init, Sp.init]
   · funext w; simp [St.abs, St.init, Sp.init]
   · rfl
